@@ -285,7 +285,17 @@ class Engine:
                 else: out += nxt(q)
             return out
         if kind == 'ReturnStmt':
-            q = p.copy(); v = self.render(st['inner'][0], q) if st.get('inner') else None
+            e0 = st['inner'][0] if st.get('inner') else None
+            ec = e0
+            while ec is not None and ec.get('kind') in ('ImplicitCastExpr', 'ParenExpr', 'CStyleCastExpr'): ec = ec['inner'][0]
+            if ec is not None and ec.get('kind') == 'ConditionalOperator':
+                # return c ? a : b  is two paths, like  if (c) return a; return b;
+                outp = []
+                for q, t in self.cond_paths(ec['inner'][0], p):
+                    v = self.render(ec['inner'][1 if t else 2], q)
+                    q.events.append(('return', v, st)); outp.append(self._end(q))
+                return outp
+            q = p.copy(); v = self.render(e0, q) if e0 is not None else None
             q.events.append(('return', v, st)); return [self._end(q)]
         if kind == 'BreakStmt':
             if brk is None: raise AnalysisBroken(f'{self.fname}: break outside loop/switch')
